@@ -28,6 +28,12 @@
 (*   entitled == authenticated /\ mapping active /\ (listen client presenting the mapping id    *)
 (*               \/ listen or target client presenting the mapping's secret), for the tunnel's  *)
 (*               own mapping                                                                    *)
+(*          am     who -> mapping of the tunnel the connection is attached to ("-": none)       *)
+(*          lm     who -> mapping of the tunnel whose other end's marker it read ("-": none)   *)
+(*   Open may carry  ord "slowUsage" | "inflightUsage" (history class: the mapping was changed  *)
+(*   while / right after an earlier admitted open's usage write was held by a slow store; ms is *)
+(*   what was DONE to the mapping, not what the store holds) and ts "prefixRemote" (the named   *)
+(*   tunnel id shares its first 16 bytes with another mapping's tunnel on the same node).       *)
 (*   Unentitled   : attached (as source, as target, through another node)  => entitled          *)
 (*   Leak         : marker readable \/ any tunnel byte                     => entitled          *)
 (*                  - both for the mapping of the tunnel that exists in the end (bm)            *)
@@ -60,8 +66,11 @@ Entitled(r, tm) == IF r.cred = "otherId" THEN r.id = "stranger" /\ tm \in {"-", 
 
 Path(ts) == CASE ts = "none" -> "newBridge" [] ts = "waiting" -> "existingBridge"
               [] ts = "served" -> "servedBridge" [] ts = "remote" -> "crossNode"
-              [] ts = "lateRemote" -> "crossNodeLate" [] ts = "lateLocal" -> "localLate" [] OTHER -> ts
-Detail(o) == Path(o.ts) \o ":" \o o.id \o ":" \o o.cred \o ":" \o o.ms
+              [] ts = "lateRemote" -> "crossNodeLate" [] ts = "lateLocal" -> "localLate"
+              [] ts = "prefixRemote" -> "crossNodePrefix" [] OTHER -> ts
+\* a history class (usage orders) leads the detail, so that one prefix pattern names the class
+Hist(o) == IF "ord" \in DOMAIN o /\ o.ord \in {"slowUsage", "inflightUsage"} THEN o.ord \o ":" ELSE ""
+Detail(o) == Hist(o) \o Path(o.ts) \o ":" \o o.id \o ":" \o o.cred \o ":" \o o.ms
              \o (IF Keyless(o) THEN ":keyless" ELSE "")
              \o (IF "shape" \in DOMAIN o /\ o.shape # "std" THEN ":" \o o.shape ELSE "")
              \o (IF o.tm \in {"M2", "M3"} /\ o.cred \notin {"otherId", "otherSecret"} THEN ":squatted" ELSE "")
@@ -75,9 +84,11 @@ Check(w) == LET r == reqs[w]
                 a == Ev.att[w] # "none"
                 b == Ev.marker[w] \/ Ev.stray[w]
                 e0 == Entitled(r.o, r.o.tm)                                  \* for what existed at arrival
-                e1 == Entitled(r.o, IF Ev.bm # "-" THEN Ev.bm ELSE r.o.tm)   \* for the tunnel that exists now
-            IN   (IF a /\ ~e1 THEN {V("Unentitled", r.d)} ELSE {})
-            \cup (IF b /\ ~e1 THEN {V("Leak", r.d)} ELSE {})
+                tx == IF Ev.bm # "-" THEN Ev.bm ELSE r.o.tm                  \* the tunnel that exists now
+                ta == IF "am" \in DOMAIN Ev /\ Ev.am[w] # "-" THEN Ev.am[w] ELSE tx   \* ... the one it is attached to
+                tl == IF "lm" \in DOMAIN Ev /\ Ev.lm[w] # "-" THEN Ev.lm[w] ELSE ta   \* ... the one its bytes came from
+            IN   (IF a /\ ~Entitled(r.o, ta) THEN {V("Unentitled", r.d)} ELSE {})
+            \cup (IF b /\ ~Entitled(r.o, tl) THEN {V("Leak", r.d)} ELSE {})
             \cup (IF ~e0 /\ r.ack # "fail" /\ ~r.closed THEN {V("NoFailureAck", r.d)} ELSE {})
 
 TrObs == /\ Is("Obs")
